@@ -56,6 +56,12 @@ CHECKS = {
          "state incl. post-unlink states; compared by TLC with EGQueries!FindLinks; agreement with neighbors() multiplicity re-checked "
          "on logged answers; UnlinkEmpties lemma checked on the model.",
          "TLC model checking of lemmas + trace validation (answer = operator)"),
+ "C05": ("model_checking", "6 C05",
+         "TLC checks coherence and transparency of the memo on EGCache over all interleavings of structural calls, queries and flag "
+         "toggles (and that the unrepaired invalidation rule fails); every structural transition is executed on real objects with all "
+         "memos kept warm along the path, under three flag schedules, and every cached answer afterwards is compared by TLC with the "
+         "operator on the real post-state; behaviours generated from the specification by tlc -simulate are replayed as well.",
+         "TLC model checking + trace validation (cached answer = operator on real state)"),
 }
 
 NOT_YET = {}
